@@ -857,20 +857,24 @@ def run_shared(case):
   rem = Remote(case, 'threaded')
   try:
     items = tuple(case['items'])
-    if case['source'] == 'tuple':
-      h = rem.client.get_result(lf.trace(items, lazy_result=True))
-      it = iter(h)
-      step = lambda: next(it)
-    else:
-      h = rem.client.get_result(lf.trace(lib14.make_queue)(list(items), None, None, lazy_result_=True))
-      q = cu.RemoteIteratorQueue(h, name='c14')
-      step = q.get
+    try:
+      if case['source'] == 'tuple':
+        h = rem.client.get_result(lf.trace(items, lazy_result=True))
+        it = iter(h)
+        step = lambda: next(it)
+      else:
+        h = rem.client.get_result(lf.trace(lib14.make_queue)(list(items), None, None, lazy_result_=True))
+        q = cu.RemoteIteratorQueue(h, name='c14')
+        step = q.get
+    except Exception as e:  # pylint: disable=broad-except
+      return {'shared': [], 'hung': False, 'setup_error': f'{type(e).__name__}: {e}'[:200], 'remote': [], 'local': []}
     res = [[] for _ in range(case['n_threads'])]
 
     def work(i):
       for _ in range(case['per_thread']):
         try:
-          res[i].append({'ok': step()})
+          v = step()
+          res[i].append({'ok': v if isinstance(v, int) and not isinstance(v, bool) else repr(v)[:40]})
         except Exception as e:  # pylint: disable=broad-except
           res[i].append({'err': c14_err(e)})
     ts = [threading.Thread(target=work, args=(i,), daemon=True) for i in range(len(res))]
@@ -890,10 +894,14 @@ def oracle_shared(case, obs):
   call that finds nothing left; no value after a consumer saw the end."""
   if obs.get('hung'):
     return 'a consumer thread did not finish (hang)'
+  if obs.get('setup_error'):
+    return f'creating the remote iterator / queue failed: {obs["setup_error"]}'
   items = case['items']
   got = []
   for i, seq in enumerate(obs['shared']):
     vals = [r['ok'] for r in seq if 'ok' in r]
+    if any(not isinstance(v, int) for v in vals):
+      return f'consumer {i} received {vals}: not elements of the underlying sequence {items}'
     if any('err' in r and r['err'] != 'StopIteration' for r in seq):
       return f'consumer {i}: unexpected exception in {seq}'
     if vals != sorted(vals):
@@ -930,7 +938,14 @@ def run_impl(case):
     rem = Remote(case, 'threaded' if conc else 'inline')
     try:
       if not conc:
-        out['remote'] = [renumber(rem.run_ops(case['threads'][0]))]
+        try:
+          out['remote'] = [renumber(rem.run_ops(case['threads'][0]))]
+        except Exception as e:  # pylint: disable=broad-except
+          # every per-op exception is an observation; anything escaping here means the client/server API itself
+          # misbehaved in a way the harness has no observation for: reported by the oracle, not swallowed
+          import traceback
+          out['remote'] = [[]]
+          out['crash'] = traceback.format_exc()[-600:]
       else:
         res = [None] * len(case['threads'])
         errs = []
@@ -999,6 +1014,8 @@ def _same_exc(a, b, lenient_msg):
 def compare(impl, model):
   if 'shared' in impl:
     return None
+  if impl.get('crash'):
+    return 'the remote pass raised outside any client call: ' + impl['crash'][-300:]
   if impl.get('hung'):
     return 'a client thread did not finish'
   for ti, (a, b) in enumerate(zip(impl['remote'], model['remote'])):
@@ -1052,6 +1069,9 @@ def _failures(case, obs):
   call is a TimeoutError and no call returns a different value; a transport fault never yields a value."""
   if obs.get('hung'):
     yield 'a client thread did not finish (hang)'
+    return
+  if obs.get('crash'):
+    yield 'the remote pass raised outside any client call: ' + obs['crash'][-300:]
     return
   for ti, (ops, rem, loc) in enumerate(zip(case['threads'], obs['remote'], obs['local'])):
     shut = False
